@@ -27,6 +27,10 @@ class TLCResult:
         m = re.search(r"(\d+) states generated, (\d+) distinct states found", out)
         self.generated = int(m.group(1)) if m else 0
         self.distinct = int(m.group(2)) if m else 0
+        if not m:
+            ms = re.search(r"The number of states generated: (\d+)", out)      # simulation mode
+            if ms:
+                self.generated = int(ms.group(1))
         m = re.search(r"The depth of the complete state graph search is (\d+)", out)
         self.depth = int(m.group(1)) if m else 0
         self.violation = None
